@@ -709,6 +709,69 @@ def option_numeric_sweep(rng, full):
                                 {"phylip": "dnamatrix", "phylip_cont": "contmatrix"}.get(kind) or ROUTES[schema][0], "optsweep:" + field)
 
 
+def translate_only_grid():
+    """fixed opening grid: NEXUS sources WITHOUT a TAXA block / NTAX before the TREES block (MrBayes / BEAST tree files) with a
+    TRANSLATE statement, and tree statements whose leaves are translated tokens, labels of the table, taxon numbers, labels
+    that are none of these (partial table, one corrupted token), quoted and underscore forms"""
+    tables = [("1 A, 2 B, 3 C", ["1", "2", "3"]), ("1 A, 2 B", ["1", "2", "C"]), ("1 A,\n 2 B,\n 3 C", ["1", "2", "3x"]),
+              ("a A, b B", ["a", "b", "zz"]), ("1 A", ["1", "B", "C"]), ("1 'A a', 2 B_b", ["1", "2", "'C c'"]),
+              ("1 A, 2 B, 3 C", ["A", "B", "4"]), ("1 A, 2 B, 3 C", ["1", "2", "4x"]), ("1 A, 2 B, 3 C", ["1", "2", "0"])]
+    shapes = ["(%s,%s,%s)", "(%s,(%s,%s))", "((%s:1,%s:2):0.5,%s:1)"]
+    heads = ["", "[ID: 123]\n", "BEGIN NOTES;\n x;\nEND;\n"]
+    for table, leaves in tables:
+        for sh in shapes:
+            for head in heads[:2 if sh != shapes[0] else 3]:
+                for extra in ("", "  TREE u = %s;\n" % (sh % tuple(reversed(leaves)))):
+                    yield "#NEXUS\n%sBEGIN TREES;\n  TRANSLATE\n %s;\n  TREE t = [&U] %s;\n%sEND;\n" % (head, table, sh % tuple(leaves), extra)
+
+
+def gen_nexus_translate_only(rng):
+    """random member of the same class: no TAXA block, TRANSLATE (complete or partial), trees over tokens / labels / numbers,
+    then possibly one token of a tree replaced by a near miss"""
+    n = rng.randint(2, 6)
+    labs = [label(rng, i) for i in range(n)]
+    keys = [str(i + 1) if rng.random() < 0.85 else "k%d" % i for i in range(n)]
+    listed = [i for i in range(n) if rng.random() < 0.8] or [0]
+    L = ["#NEXUS" if rng.random() < 0.9 else "#nexus"]
+    if rng.random() < 0.3:
+        L.append(rng.choice(["[ID: 0123456789]", "BEGIN MRBAYES;\n  set autoclose=yes;\nEND;", "[generated by a sampler]"]))
+    L.append("%s %s;" % (kw(rng, "BEGIN"), kw(rng, "TREES")))
+    L.append("  %s" % kw(rng, "TRANSLATE"))
+    L.append(",\n".join("    %s %s" % (keys[i], labs[i]) for i in listed) + rng.choice([";", "\n  ;"]))
+    for t in range(rng.randint(1, 3)):
+        k = rng.randint(1, n)
+        idx = rng.sample(range(n), k)
+        names = []
+        for i in idx:
+            r = rng.random()
+            if i in listed and r < 0.7:
+                nm = keys[i]
+            elif r < 0.85:
+                nm = labs[i]                      # by name: a new taxon when the table does not list it
+            elif r < 0.93:
+                nm = str(i + 1)                   # by number
+            else:
+                nm = rng.choice([keys[i] + "x", "zz%d" % i, str(n + 3), "0", labs[i].upper(), "'new %d'" % i])
+            names.append(nm)
+        L.append("  %s %s = %s%s;" % (kw(rng, "TREE"), rng.choice(["t%d" % t, "STATE_%d" % (1000 * t), "'tree %d'" % t]),
+                                      rng.choice(["", "[&R] ", "[&U] ", "[&W 1] "]),
+                                      newick_of(rng, tu.rand_shape(rng, k, p_poly=0.3, p_unary=0.05), names, lengths=rng.random() < 0.7,
+                                                internal=rng.random() < 0.2, comments=rng.random() < 0.2)))
+    L.append(rng.choice(["END;", "end;", "ENDBLOCK;"]))
+    return {"schema": "nexus", "text": "\n".join(L) + rng.choice(["\n", ""]), "kwargs": {}}
+
+
+def tree_token_edits(rng, text, n):
+    """local corruptions of leaf / node tokens inside TREE statements: a character appended, dropped or replaced in one token"""
+    spans = [m for m in re.finditer(r"(?<=[(,])\s*([^\s(),:;\[\]']+)(?=[:,)\[])", text)]
+    for _ in range(min(n, 3 * len(spans))):
+        m = rng.choice(spans)
+        a, b = m.start(1), m.end(1)
+        tok = text[a:b]
+        new = rng.choice([tok + "x", tok + "0", tok[:-1], "x" + tok, tok.upper(), tok + "_", str(rng.randint(0, 12)), "99"])
+        yield text[:a] + new + text[b:]
+
+
 GENS = {"newick": gen_newick, "nexus": gen_nexus, "phylip": gen_phylip, "fasta": gen_fasta}
 
 
@@ -1495,6 +1558,10 @@ def special_cases(ctx, dendropy, st):
     for schema, text in texts:
         for route in sorted(set(ROUTES[schema])):
             judge(ctx, dendropy, make_case(schema, text, {}, route, "special"), st)
+    for k, text in enumerate(translate_only_grid()):
+        judge(ctx, dendropy, make_case("nexus", text, {}, ["dataset", "treelist"][k % 2], "translate-only"), st)
+        if k % 4 == 0:
+            judge(ctx, dendropy, make_case("nexus", text, {}, ["treelist", "dataset"][k % 2], "translate-only"), st)
     # bad and good input of every format through every way a source can be handed over
     for schema, bad, good in (("newick", "((a,b);", "(a,b);"), ("nexus", "#NEXUS\nBEGIN TAXA;\n DIMENSIONS NTAX=2", "#NEXUS\nBEGIN TAXA;\n DIMENSIONS NTAX=1;\n TAXLABELS A;\nEND;\n"),
                               ("phylip", "2 4\nA ACGTA\nB ACGT\n\n", "1 2\nA AC\n\n"), ("fasta", ">A\nAC!T\n", ">A\nACGT\n")):
@@ -1548,6 +1615,13 @@ def run(ctx):
             heavy = schema == "nexus"
             corruptions_of(ctx, dendropy, doc, st, n_edits=ctx.pick(60 if heavy else 25, 150), n_double=ctx.pick(25 if heavy else 10, 80),
                            all_prefixes=True)
+            if schema == "nexus":
+                # tree files without a TAXA block: TRANSLATE (complete / partial) + leaves by token, name, number, near miss
+                for _ in range(ctx.pick(2, 4)):
+                    tdoc = gen_nexus_translate_only(rng)
+                    corruptions_of(ctx, dendropy, tdoc, st, n_edits=ctx.pick(6, 30), n_double=ctx.pick(2, 10), all_prefixes=False)
+                    for t in tree_token_edits(rng, tdoc["text"], ctx.pick(10, 30)):
+                        judge(ctx, dendropy, make_case("nexus", t, {}, rng.choice(ROUTES["nexus"][:4]), "treetoken"), st)
             if schema == "nexus" and (thorough or r % 2 == 0):
                 # INTERLEAVE x MATCHCHAR: every truncation and every single-character edit of the matrix body
                 mdoc, span, mc = gen_nexus_interleave_match(rng)
